@@ -57,7 +57,7 @@ var ruleAddenda = map[string]string{
 	"C16": "Also: foreign-scheme pretouch (the same constraint text first under two other schemes) and twin-question pretouch before the base spelling is evaluated.",
 	"C17": "Also two-point corruptions: a constraint slot, prefix or suffix made only of blanks other than the ASCII space (\\t \\n \\v \\f \\r U+0085 U+00A0 U+2003 U+2028 U+3000 U+FEFF NUL DEL); probes taken verbatim from the range.",
 	"C18": "Also: directed length sweep (spellings of exactly n-2..n+1 bytes for every number literal 12<=n<=1100 of the sources) and ranges built from the sources' punctuation literals placed before / after / around a pool member cut to a shorter precision, the uncut member being a probe.",
-	"C19": "Also: (a) cold-start children - 3 (thorough 24) fresh race-build processes per ecosystem whose FIRST library calls are made by 8 goroutines at once; (b) hot-object storm in the fast build - 16 goroutines inside ONE shared object (version, range, ecosystem value as parser, one VERS body under all schemes) with every result compared to the sequential answer; (c) volume - 560 000 distinct versions and 120 000 distinct ranges kept, sentinels and first questions re-asked; (d) a change of an operand's memory counts only when a caller can observe it (String / Compare / Contains differ from a fresh parse); (e) the cross-scheme history contains 4-8 constraint ranges and twin questions.",
+	"C19": "Also: (a) cold-start children - 3 (thorough 12) fresh race-build processes per ecosystem whose FIRST library calls are made by 8 goroutines at once; (b) hot-object storm in the fast build - 16 goroutines inside ONE shared object (version, range, ecosystem value as parser, one VERS body under all schemes) with every result compared to the sequential answer; (c) volume - 560 000 distinct versions and 120 000 distinct ranges kept, sentinels and first questions re-asked; (d) a change of an operand's memory counts only when a caller can observe it (String / Compare / Contains differ from a fresh parse); (e) the cross-scheme history contains 4-8 constraint ranges and twin questions.",
 	"C20": "Also: every 12th range OBJECT answers 1 500 (thorough 20 000) further distinct versions between two passes over the pool; an answer that changes is a violation (membership depends on earlier questions).",
 }
 
